@@ -37,6 +37,32 @@ def preload():
 
 preload()
 
+def patch_everywhere(real, replacement, prefix='panqec'):
+    """Replace every module-level binding of `real` in the modules of the
+    package under test (however it was imported: `import x`, `from x import
+    y`, re-exports).  Returns the list of (module, name) patched, for undo."""
+    import sys as _sys
+    done = []
+    for mname, mod in list(_sys.modules.items()):
+        if mod is None or not (mname == prefix or
+                               mname.startswith(prefix + '.')):
+            continue
+        try:
+            items = list(vars(mod).items())
+        except TypeError:
+            continue
+        for name, val in items:
+            if val is real:
+                setattr(mod, name, replacement)
+                done.append((mod, name))
+    return done
+
+
+def unpatch(done, real):
+    for mod, name in done:
+        setattr(mod, name, real)
+
+
 # ---------------------------------------------------------------------------
 # entropy
 # ---------------------------------------------------------------------------
@@ -61,12 +87,19 @@ def install_entropy(seed=0):
     see different draws and report it."""
     import random as _random
     np.random.default_rng = _sim_default_rng
+    _entropy_patches[:] = patch_everywhere(_real_default_rng,
+                                           _sim_default_rng)
     _random.seed(H(seed, 'global-random'))
     np.random.seed(H(seed, 'global-numpy') & 0xffffffff)
 
 
+_entropy_patches = []
+
+
 def uninstall_entropy():
     np.random.default_rng = _real_default_rng
+    unpatch(_entropy_patches, _real_default_rng)
+    del _entropy_patches[:]
 
 
 # ---------------------------------------------------------------------------
@@ -115,19 +148,33 @@ class _SimTimeModule:
         return getattr(_real_time_mod, name)
 
 
+_clock_undo = []
+
+
 def install_clock(clock):
+    """Wall clock of the simulation package, however it is imported
+    (`import datetime`, `from datetime import datetime`, `import time`), and
+    gzip's header time stamp."""
     import gzip
-    import panqec.simulation._base_simulation as bs
     _clock_holder['clock'] = clock
-    bs.datetime = _SimDatetimeModule(lambda: _clock_holder['clock'])
+    getc = lambda: _clock_holder['clock']     # noqa: E731
+    shim_mod = _SimDatetimeModule(getc)
+    pre = 'panqec.simulation'
+    del _clock_undo[:]
+    for real, repl in ((_real_datetime_mod, shim_mod),
+                       (_real_datetime_mod.datetime, shim_mod.datetime),
+                       (_real_time_mod, _SimTimeModule()),
+                       (_real_time_mod.time, _SimTimeModule().time)):
+        _clock_undo.append((patch_everywhere(real, repl, prefix=pre), real))
     gzip.time = _SimTimeModule()
 
 
 def uninstall_clock():
     import gzip
-    import panqec.simulation._base_simulation as bs
     _clock_holder['clock'] = None
-    bs.datetime = _real_datetime_mod
+    for done, real in _clock_undo:
+        unpatch(done, real)
+    del _clock_undo[:]
     gzip.time = _real_time_mod
 
 
@@ -261,6 +308,7 @@ class Ledger:
             if proc is None:
                 return shot
             ident = identity_of(code, error_model, decoder, error_rate)
+            ledger.n_calls = getattr(ledger, 'n_calls', 0) + 1
             ledger.by_proc.setdefault(proc.pid, {}).setdefault(
                 ident, []).append(trial_payload(shot))
             if ledger.keep_shots:
@@ -274,11 +322,14 @@ class Ledger:
             return shot
 
         ds.run_once = run_once
+        self._patched = patch_everywhere(real, run_once)
+        self.n_calls = 0
 
     def uninstall(self):
         import panqec.simulation._direct_simulation as ds
         if self._real is not None:
             ds.run_once = self._real
+            unpatch(getattr(self, '_patched', []), self._real)
             self._real = None
 
 
